@@ -110,11 +110,11 @@ Print Assumptions native_total_unchecked_refuted.
    operation (all forms of continue, choose, jump, evaluate, set a variable, flow operations,
    reset) that does not end in a panic — whether the call returns Ok or Err.  The code fact it rests
    on is regenerated: continue_internal tests can_continue before touching the counters
-   (now_cont_check_first).  Counter leaks (defect e98ca2b, seeded change C04) falsify it. *)
+   (now_cont_check_first) and decrements it before the error-delivery block (now_counter_dec_first).  Counter leaks (defect e98ca2b, seeded change C04) falsify it. *)
 Theorem bookkeeping_invariant :
   forall (I : iface) (ops : list story_op) (w : world),
     Inv w -> no_panic I sw_now ops w -> Inv (run_story_ops I sw_now ops w).
-Proof. exact (fun I => BetweenCalls.invariant_preserved I sw_now now_cont_check_first). Qed.
+Proof. exact (fun I => BetweenCalls.invariant_preserved I sw_now now_cont_check_first now_counter_dec_first). Qed.
 Check bookkeeping_invariant :
   forall (I : iface) (ops : list story_op) (w : world),
     Inv w -> no_panic I sw_now ops w -> Inv (run_story_ops I sw_now ops w).
@@ -125,7 +125,7 @@ Theorem between_calls_in_every_reachable_world :
     Inv w -> no_panic I sw_now ops w ->
     w_async (run_story_ops I sw_now ops w) = false ->
     between_calls (run_story_ops I sw_now ops w).
-Proof. exact (fun I => BetweenCalls.between_calls_reachable I sw_now now_cont_check_first). Qed.
+Proof. exact (fun I => BetweenCalls.between_calls_reachable I sw_now now_cont_check_first now_counter_dec_first). Qed.
 Check between_calls_in_every_reachable_world :
   forall (I : iface) (ops : list story_op) (w : world),
     Inv w -> no_panic I sw_now ops w ->
